@@ -188,7 +188,7 @@ class C05(Check):
     quick_examples = 5000
     thorough_examples = 60000
     rule = (
-        "[drawn in addition since rounds 13-15: error hierarchies behind sub-metaclasses (with a registry of their own / sharing the global one) as raised class and as error_cls] "
+        "[round 16: typed error classes declaring only their code (message inherited or given where raised), also as late classes] [drawn in addition since rounds 13-15: error hierarchies behind sub-metaclasses (with a registry of their own / sharing the global one) as raised class and as error_cls] "
         "cases: requests / responses / errors / batch requests / batch responses / batch-level errors built through the public "
         "constructors from generated arguments (params none/list/tuple/dict incl. empty, ids over integers/strings/null, results and "
         "error data over nested JSON values incl. null, 4299-digit integers, floats, control and astral characters; errors of the base "
